@@ -9,6 +9,7 @@ import (
 	_ "hv/props/c06"
 	_ "hv/props/c07"
 	_ "hv/props/c08"
+	_ "hv/props/c09"
 	_ "hv/props/c10"
 	_ "hv/props/c11"
 	_ "hv/props/c12"
